@@ -571,6 +571,8 @@ def api_oracle(o, known_spans=()) -> str | None:
         return "findall differs from the texts of finditer"
     if o["search"] != (o["spans"][0] if o["spans"] else None):
         return "search is not the first finditer result"
+    if known_spans:      # the body range itself may be one of the spans a listed finding explains
+        return None
     if bs:
         b0, b1 = min(x[0] for x in bs), max(x[1] for x in bs)
         at_start = [sp for sp in o["spans"] if sp[0] == b0]
@@ -678,8 +680,13 @@ def node_failures(core, s, limit=3):
         except Exception as e:  # noqa
             got = ("exception", type(e).__name__)
         if got != exp:
+            gap = None
+            if isinstance(node, DEF_TYPES) and node.decorator_list:
+                first = min(node.decorator_list, key=lambda d: (d.lineno, d.col_offset))
+                gap = s[exp[0] + 1:true_offset(b, offs, first.lineno, first.col_offset)]
             out.append({"source": s, "node": type(node).__name__, "node_text": s[exp[0]:exp[1]], "expected_span": exp,
-                        "got_span": got, "in_fstring": _in_fstring(root, node), "site": "core.get_charnos"})
+                        "got_span": got, "in_fstring": _in_fstring(root, node), "decorator_gap": gap,
+                        "site": "core.get_charnos"})
             if len(out) >= limit:
                 break
     return out
@@ -690,7 +697,14 @@ def _sig_fstring_literal_blank(c) -> bool:
     return c["node"] == "Constant" and c["in_fstring"] and t != "" and (t[0] == " " or t[-1] == " ")
 
 
-SIGS = {"fstring_literal_blank": _sig_fstring_literal_blank}
+def _sig_decorator_comment_in_parens(c) -> bool:
+    # between the '@' and the first decorator expression there is a comment (only possible inside parentheses)
+    g = c.get("decorator_gap")
+    return c["node"] in ("FunctionDef", "AsyncFunctionDef", "ClassDef") and g is not None and "(" in g and "#" in g
+
+
+SIGS = {"fstring_literal_blank": _sig_fstring_literal_blank,
+        "decorator_comment_in_parens": _sig_decorator_comment_in_parens}
 
 
 def match_finding(findings, case):
@@ -991,11 +1005,13 @@ def check(run: common.Run):
                 known_examples.setdefault(m.id, f)
     api_fail = []
     det_srcs = set(api_srcs[:len(api_family()) + len(corpus)])
+    known_cache = {}
     for o in api_obs:
         if o["source"] in det_srcs:
-            known = {tuple(f["got_span"]) for f in node_failures(core, o["source"], limit=50) if match_finding(kf, f)} \
-                if o["spans"] else set()
-            pr = api_oracle(o, known)
+            if o["source"] not in known_cache:
+                known_cache[o["source"]] = {tuple(f["got_span"]) for f in node_failures(core, o["source"], limit=50)
+                                            if match_finding(kf, f)}
+            pr = api_oracle(o, known_cache[o["source"]])
             if pr:
                 api_fail.append({"pattern": o["pattern"], "source": o["source"], "problem": pr, "site": "pattern_matching"})
     for c in corpus:   # witnesses of `fixed:` entries must pass from now on
